@@ -12,7 +12,7 @@ LEVEL_TEXT = 'Lean 4 theorems: fillAll_eq_denote — for every empty tree and ev
 LEVEL_NOTE = 'Exact arithmetic; IEEE rounding of sums/means/variances is the declared gap. The specification denote is itself compared with the implementation on every case (and with an independent exact-rational reference evaluator written from the Histogrammar specification).'
 TECHNIQUE = 'Lean 4 proof (gate, permutation invariance, routing) + three-way differential check against an independent reference evaluator'
 LEAN_MODULE = "Hg.Props.C02"
-THEOREMS = ["Hg.C02.fillAll_eq_denote", "Hg.C02.denote_perm", "Hg.C02.denote_gated", "Hg.C02.fill_gate", "Hg.C02.fillAll_perm", "Hg.C02.fill_ok_indep", "Hg.C02.routeBin_spec", "Hg.C02.centralPick_midpoint"]
+THEOREMS = ["Hg.C02.fillAll_eq_denote", "Hg.C02.denote_perm", "Hg.C02.denote_gated", "Hg.C02.fill_gate", "Hg.C02.fillAll_perm", "Hg.C02.fill_ok_indep", "Hg.C02.routeBin_spec", "Hg.C02.centralPick_midpoint", "Hg.C02.count_transform_spec", "Hg.C02.count_transform_gate"]
 CASES = {"quick": 320, "thorough": 12000}
 RULE = ("random tree spec (19 primitives, depth<=3) and a stream of <=16 weighted records over the tree's critical values "
         "(every edge/threshold/centre/midpoint +- 1/8, NaN, +-inf, None/strings) with gate weights {0,-1,-0.5,nan} mixed in; "
@@ -131,6 +131,43 @@ def build(p):
     return {"ops": ops, "expect": expect, "spec": spec, "stream": stream}
 
 
+def post_model(py, model):
+    """a Count with a weight transform on the weights of the case (gate weights included): the gate is on the weight handed
+    to fill, not on what the transform makes of it (model: Hg.Model.CountT, laws for every transform)"""
+    from runner import dec
+
+    p = dec(py.case["params"])
+    ws = [r[1] for r in p["stream"]]
+    return common.countt_post(model, ws, [ws], None, len(ws) + p["perm_seed"] % 7)
+
+
+def transform_spec_check(p):
+    """Implementation-level twin of the CountT correspondence: a Count with a polynomial weight transform holds the sum of the
+    transformed weights of the records whose own weight is positive (exact on the case's dyadic weights)."""
+    import math
+    from fractions import Fraction
+
+    ws = [float(r[1]) for r in p["stream"]]
+    if any(math.isinf(w) and w > 0 for w in ws):
+        return []
+    label, cs = common.COUNTT_POLYS[(len(ws) + p["perm_seed"] % 7) % len(common.COUNTT_POLYS)]
+
+    def f(w):
+        return sum(float(c) * w ** i for i, c in enumerate(cs))
+
+    c = gen.hg.Count(f)
+    try:
+        for w in ws:
+            c.fill(None, w)
+    except Exception as e:  # noqa: BLE001
+        return ["Count(transform %s) filled with weights %r: %s: %s" % (label, ws, type(e).__name__, str(e)[:160])]
+    want = sum((Fraction(f(w)) for w in ws if w > 0), Fraction(0))
+    if Fraction(float(c.entries)) != want:
+        return ["Count(transform %s) filled with weights %r holds %r, the specification gives %r (weights that do not pass the gate "
+                "contribute nothing, whatever the transform makes of them)" % (label, ws, c.entries, float(want))]
+    return []
+
+
 @common.pycheck("c02_reference")
 def _ref(py, replies, h):
     case = py.case_params
@@ -203,7 +240,7 @@ def oracle(case, py, replies):
     from runner import dec
 
     py.case_params = dec(case["params"])
-    return common.eval_expect(case, py, replies)
+    return common.eval_expect(case, py, replies) + transform_spec_check(py.case_params)
 
 
 stats = common.basic_stats
